@@ -283,6 +283,39 @@ Proof.
 Qed.
 
 (* ---------------------------------------------------------------------------------- *)
+(* a shadow backend, whatever its shadow_timeout, changes nothing for the regular calls *)
+
+Lemma shadow_irrelevant_ctx F c s clk i j :
+  ctx_call F (with_shadow c s) clk i j = ctx_call F c clk i j.
+Proof. reflexivity. Qed.
+
+Lemma shadow_irrelevant_certain c s :
+  must_keys (with_shadow c s) = must_keys c /\ must_wait (with_shadow c s) = must_wait c.
+Proof. split; reflexivity. Qed.
+
+Lemma shadow_irrelevant_oracle F c s slack o :
+  spec_b F (with_shadow c s) slack o = spec_b F c slack o.
+Proof. reflexivity. Qed.
+
+(* the regular contexts do not even share a token with the shadow pipe's detached context:
+   cancelling (or expiring) the shadow context cannot end a regular call *)
+Lemma shadow_token_foreign F c clk i j f : (j < 8)%nat ->
+  In f (ctx_call F c clk i j) -> tok f <> tok_shadow.
+Proof.
+  intros Hj Hf E. apply tokens_call in Hf. rewrite E in Hf.
+  unfold own_tokens, tok_shadow, tok_parent, tok_router, tok_merge, tok_part, tok_conc, tok_att in Hf.
+  simpl in Hf. lia.
+Qed.
+
+Lemma shadow_cancel_harmless F c clk i j now :
+  (j < 8)%nat -> (forall x, deadline (ctx_call F c clk i j) = Some x -> now < x) ->
+  done [tok_shadow] now (ctx_call F c clk i j) = false.
+Proof.
+  intros Hj Hd. destruct (good_call F c clk i j) as [Hw Hn]. apply not_done; auto.
+  intros f Hf [E|[]]. apply (shadow_token_foreign F c clk i j f Hj Hf). symmetry. exact E.
+Qed.
+
+(* ---------------------------------------------------------------------------------- *)
 (* the boolean oracle is the property *)
 
 Lemma mem_nat_In x l : mem_nat x l = true <-> In x l.
